@@ -70,6 +70,7 @@ func ToStringKey(values ...interface{}) string {
 			value, _ = valuer.Value()
 		}
 
+		isNil := false
 		switch v := value.(type) {
 		case string:
 			results[idx] = v
@@ -79,9 +80,25 @@ func ToStringKey(values ...interface{}) string {
 			results[idx] = strconv.FormatUint(uint64(v), 10)
 		default:
 			results[idx] = "nil"
+			isNil = true
 			vv := reflect.ValueOf(v)
 			if vv.IsValid() && !vv.IsZero() {
 				results[idx] = fmt.Sprint(reflect.Indirect(vv).Interface())
+				isNil = false
+			}
+		}
+
+		if !isNil {
+			// keep keys unambiguous: ("a_b", "c") and ("a", "b_c") must not share a key, and the text
+			// "nil" is a legal key value that must not be taken for a missing (NULL) part
+			if strings.Contains(results[idx], `\`) {
+				results[idx] = strings.ReplaceAll(results[idx], `\`, `\\`)
+			}
+			if len(values) > 1 && strings.Contains(results[idx], "_") {
+				results[idx] = strings.ReplaceAll(results[idx], "_", `\_`)
+			}
+			if results[idx] == "nil" {
+				results[idx] = `\nil`
 			}
 		}
 	}
